@@ -22,8 +22,8 @@ from vt.oracles import constraint_semantics as CS
 
 ID = 'C02'
 TIERS = {
-    'quick': dict(shards=16, cases=1200, watchdog_s=900),
-    'thorough': dict(shards=16, cases=40000, watchdog_s=7000),
+    'quick': dict(shards=16, cases=1200, long_null_runs=3, watchdog_s=900),
+    'thorough': dict(shards=16, cases=40000, long_null_runs=60, watchdog_s=7000),
 }
 RULE = ('case = frame spec (C01 generator) + constraint set derived from its data (bounds on / just inside / just '
         'outside each extreme incl. the fuzzy thresholds for epsilon 0.01 and 0.5, every precision, all sign classes, '
@@ -36,15 +36,15 @@ ASSUMPTIONS = [
     'repair is switched off whenever a type constraint would make verify_df rewrite the column before checking it',
 ]
 REQUIRED_MONITORS = ['verdict:must-true', 'verdict:must-false', 'totals:checked', 'frame:checked', 'str:checked',
-                     'nulls:pairs', 'order:pairs']
+                     'nulls:pairs', 'order:pairs', 'frames:long_null_run']
 REQUIRED_CLASSES = ['eps=unset', 'eps=0', 'eps=0.01', 'eps=0.5', 'tc=strict', 'tc=sloppy', 'report=all',
                     'report=fields', 'kind=min', 'kind=max', 'kind=sign', 'kind=type', 'kind=min_length',
                     'kind=max_length', 'kind=max_nulls', 'kind=no_duplicates', 'kind=allowed_values', 'kind=rex',
                     'missing_field=1']
 
 
-def gen_case(rng, i):
-    spec = F.gen_frame(rng, pool=F.RECOGNISED)
+def gen_case(rng, i, spec=None):
+    spec = spec or F.gen_frame(rng, pool=F.RECOGNISED)
     cset = GC.constraint_set(rng, spec, missing_field=rng.random() < 0.15)
     eps = [None, 0, 0.01, 0.5][i % 4] if i < 8 else rng.choice([None, 0, 0.01, 0.5])
     tc = rng.choice([None, 'strict', 'sloppy'])
@@ -261,5 +261,11 @@ def run_case(ctx, case):
 
 
 def run_shard(ctx):
+    from vt.checks import c01
+    for k in range(ctx.params.get('long_null_runs', 2)):
+        # columns whose few values sit behind / before / around a run of 1000+ nulls (C01's generator): a verdict must not depend
+        # on where in the column the values are
+        run_case(ctx, gen_case(ctx.rng, 8 + k, spec=c01.long_null_run_case(ctx.rng)['spec']))
+        ctx.rec.event('frames:long_null_run')
     for i in range(ctx.params['cases']):
         run_case(ctx, gen_case(ctx.rng, i))
